@@ -15,6 +15,7 @@ MANIFEST = {
     'note': 'Trusted: numpy/scipy.sparse. NaN frequencies are outside the quantifier.',
     'technique': 'brute-force reference histogram vs the real holospectrum, exhaustive edge-hitting enumeration + seeded random',
 }
+LOGGER_ON_ODD_SHARDS = True
 BUDGET_S = {'quick': 60, 'thorough': 420}
 NRANDOM = {'quick': 4000, 'thorough': 60000}
 EXHAUSTIVE = {'quick': True, 'thorough': True}
